@@ -26,11 +26,16 @@ the arguments of THIS call; every answer along any history is a fresh object's a
     cases) the value the main stream verified against C17/Model.v; the object's attribute tree stays as constructed;
   * functional histories: every converter of the table called repeatedly on the SAME arrays (no copies) with varying
     order / pauli_order; inputs never written; each result == the first-call value of the main stream;
+  * representation stream (family F; C17/PropsRepr.v): every converter of the table on the SAME numbers handed over as int64 / float64 /
+    float32 / complex64 / Fortran order / strided view / read-only / (nested) list -- real dtypes wherever the input is real-valued: the
+    Pauli-Liouville matrices of every case, and all inputs of two real-integer variants of the plan's cases -- each result == the
+    complex128 C-order value that the main stream verified against C17/Model.v; inputs never written; QuantumChannel.from_operator /
+    apply on re-typed operators and states == sum K rho K^dagger;
   * network histories: ONE QuantumChannel (pure and Choi form) applied to several states, full()/operator()/copy(),
     composed on both sides with a second long-lived network, linked with states; each observation == fresh object's,
     apply == sum K rho K^dagger exactly, source operators never written.
 """
-STATIC = ["C17/Props", "C17/PropsHistory"]
+STATIC = ["C17/Props", "C17/PropsHistory", "C17/PropsRepr"]
 import itertools
 import random
 import warnings
@@ -618,7 +623,7 @@ def case_spec(c):
 
 
 def object_specs(seed, pl):
-    return [case_spec(c) for (c, *_r) in pl] + H.irrational_specs(random.Random(f"c17obj:{seed}"))
+    return [case_spec(c) for (c, *_r) in pl if not c["tag"].endswith("_real")] + H.irrational_specs(random.Random(f"c17obj:{seed}"))
 
 
 def object_histories(run, pl, ctxs, only=None):
@@ -681,8 +686,30 @@ def object_histories(run, pl, ctxs, only=None):
     run.notes["object_histories"] = {"observations": nobs}
 
 
-def functional_table(c, orders, pos):
-    """(fn, order, pauli_order|None) -> thunk calling the converter on SHARED arrays (never copied); label of the main stream"""
+class KrausList(list):
+    """list of (qubits, operator) pairs whose operators are looked up in the (recording) table when the list is iterated"""
+
+    def __iter__(self):
+        return iter([(q, sh[k]) for q, sh, k in list.__iter__(self)])
+
+    def __getitem__(self, i):
+        q, sh, k = list.__getitem__(self, i)
+        return (q, sh[k])
+
+
+class RecDict(dict):
+    """dict that records which entries a thunk read"""
+    read = ()
+
+    def __getitem__(self, k):
+        if isinstance(self.read, set):
+            self.read.add(k)
+        return dict.__getitem__(self, k)
+
+
+def functional_table(c, orders, pos, rep=None):
+    """(fn, order, pauli_order|None) -> thunk calling the converter on SHARED arrays (never copied); label of the main stream.
+    `rep(name, array)`: hand every input over in another representation of the same numbers (stream `representation`)"""
     import qibo.quantum_info as qi
     n, d = c["n"], 2 ** c["n"]
     sh = {"U": c["U"].copy(), "rho": c["rho"].copy(), "psi": c["psi"].copy(), "v0": c["v0"].copy(), "X": c["X"].copy(),
@@ -700,6 +727,9 @@ def functional_table(c, orders, pos):
             sh[f"chi_{o}_{po}"] = np.asarray(qi.kraus_to_chi(K, False, order=o, pauli_order=po))
             if o != "system":
                 sh[f"pl_{o}_{po}"] = np.asarray(qi.kraus_to_pauli(K, False, order=o, pauli_order=po))
+    if rep is not None:
+        sh = RecDict({k: rep(k, v) for k, v in sh.items()})
+        K = KrausList((q, sh, f"K{i}") for i, (q, _) in enumerate(K))
     calls = {}
 
     def B(fn, f, rc=False):
@@ -896,7 +926,7 @@ def history_streams(run, pl, ctxs):
     object_histories(run, pl, ctxs)
     found = {}
     for ctx, (c, orders, pos, _norm, nets, _sp) in zip(ctxs, pl):
-        if ctx.n > 2:
+        if ctx.n > 2 or c["tag"].endswith("_real"):
             continue
         expected = {it.key: it.value for it in ctx.items}
         pos2 = list(pos[:1]) + ([rng.choice(list(pos[1:]))] if len(pos) > 1 else [])
@@ -910,6 +940,172 @@ def history_streams(run, pl, ctxs):
         run.find(key, what, rp, concrete=conc)
     run.oblige("functional_and_network_histories_equal_first_call_on_fresh_data", not found, "correspondence")
 
+
+
+# ----------------------------------------------------------------------------- input representation invariance (family F)
+def _is_real(v):
+    return not np.iscomplexobj(v) or not np.any(np.asarray(v).imag)
+
+
+def _strided(v):
+    big = np.zeros(tuple(2 * x for x in v.shape), dtype=v.dtype)
+    view = big[tuple(slice(None, None, 2) for _ in v.shape)]
+    view[...] = v
+    return view
+
+
+def _readonly(v):
+    w = v.copy()
+    w.setflags(write=False)
+    return w
+
+
+REPS = {   # name -> (needs real data, converter)
+    "fortran": (False, lambda v: np.asfortranarray(v)),
+    "strided_view": (False, _strided),
+    "readonly": (False, _readonly),
+    "complex64": (False, lambda v: v.astype(np.complex64)),
+    "list": (False, lambda v: v.tolist()),
+    "float64": (True, lambda v: np.ascontiguousarray(v.real, dtype=np.float64)),
+    "float64_fortran": (True, lambda v: np.asfortranarray(v.real.astype(np.float64))),
+    "float32": (True, lambda v: v.real.astype(np.float32)),
+    "int64": (True, lambda v: np.rint(v.real).astype(np.int64)),
+    "int_list": (True, lambda v: np.rint(v.real).astype(np.int64).tolist()),
+}
+# containers other than ndarray are outside the documented argument types: a refusal (exception) is not a finding, a wrong answer is
+LENIENT = ("list", "int_list")
+
+
+def real_variant(c, tag):
+    """the same case with real (integer) data only: every converter then has real-valued inputs"""
+    r = dict(c)
+    r["tag"] = tag
+    r["kraus"] = [(q, np.array(M.real, dtype=complex)) for q, M in c["kraus"]]
+    for k in ("U", "rho", "psi", "v0", "X"):
+        r[k] = np.array(c[k].real, dtype=complex)
+    if not np.any(r["v0"]):
+        r["v0"][0] = 1
+    return r
+
+
+def representation_case(run, c, expected, orders, pos, reps, only=None):
+    """every converter of the table on the SAME numbers handed over as int / float / complex64 / Fortran order / strided view /
+    read-only / list: the answer must be the canonical (complex128, C order) one -- for the cases of the plan that is the value the
+    main stream verified against C17/Model.v"""
+    out = []
+    cj = case_json(c)
+    can_sh, can_calls = functional_table(c, orders, pos, rep=lambda k, v: v)
+    canon, reads = {}, {}
+    for call in sorted(can_calls, key=lambda k: (k[0], k[1], k[2] or "")):
+        if only is not None and list(call) != list(only[0]):
+            continue
+        can_sh.read = set()
+        try:
+            with warnings.catch_warnings():
+                warnings.simplefilter("ignore")
+                canon[call] = ints(can_calls[call]())[0]
+        except Exception:  # noqa: BLE001
+            continue
+        reads[call] = set(can_sh.read)
+        lab = label_of(call)
+        if lab in expected and canon[call] != expected[lab]:
+            canon[call] = expected[lab]
+    for rname in reps:
+        if only is not None and rname != only[1]:
+            continue
+        need_real, conv = REPS[rname]
+        changed = {k for k, v in can_sh.items() if (not need_real or _is_real(v)) and np.asarray(v).size}
+        sh, calls = functional_table(c, orders, pos, rep=lambda k, v: conv(v) if k in changed else v)
+        snap = {k: np.array(v).tobytes() for k, v in sh.items()}
+        for call, want in canon.items():
+            hit = reads[call] & changed
+            if not hit:
+                continue
+            lab = label_of(call)
+            run.case({"representation": c["tag"], "call": lab, "rep": rname}, True)
+            rp = {"stream": "representation", "case": cj, "call": list(call), "rep": rname, "function": call[0], "args": lab.partition(":")[2],
+                  "inputs_retyped": sorted(hit)}
+            try:
+                with warnings.catch_warnings():
+                    warnings.simplefilter("ignore")
+                    val = calls[call]()
+                got = ints(val)[0]
+            except Exception as e:  # noqa: BLE001
+                if rname not in LENIENT:
+                    out.append((f"representation:{call[0]}:{rname}:raises",
+                                f"{lab} raised {type(e).__name__}: {str(e)[:160]} when its input(s) {sorted(hit)} were handed over as {rname} (same numbers; "
+                                f"the complex128 C-order call succeeds; case {c['tag']})", rp, True))
+                continue
+            if got != want:
+                out.append((f"representation:{call[0]}:{rname}",
+                            f"{lab}: the result changes when the input(s) {sorted(hit)} are handed over as {rname} instead of complex128 C order (the same "
+                            f"real / integer numbers; case {c['tag']}): an input representation must not change the channel", rp, True))
+            for k, v in sh.items():
+                if np.array(v).tobytes() != snap[k]:
+                    out.append((f"representation:{call[0]}:{rname}:input_mutated", f"{lab} wrote its {rname} input '{k}' (case {c['tag']})", rp, True))
+                    snap[k] = np.array(v).tobytes()
+    return out
+
+
+def network_representation(run, c, reps):
+    """QuantumChannel built from a retyped Choi operator / applied to a retyped state == the complex128 answer == sum K rho K^dagger"""
+    import qibo.quantum_info as qi
+    from qibo.quantum_info.quantum_networks import QuantumChannel
+    n, d = c["n"], 2 ** c["n"]
+    K = [(q, M.copy()) for q, M in c["kraus"]]
+    choi = np.asarray(qi.kraus_to_choi(K, order="row"))
+    rho = c["rho"]
+    want = sum(embed_full(n, q, M) @ rho @ embed_full(n, q, M).conj().T for q, M in K)
+    out = []
+    cj = case_json(c)
+    for rname in reps:
+        need_real, conv = REPS[rname]
+        if rname in LENIENT:
+            continue
+        for which in ("operator", "state"):
+            a = conv(choi) if which == "operator" and (not need_real or _is_real(choi)) else choi.copy()
+            b = conv(rho) if which == "state" and (not need_real or _is_real(rho)) else rho.copy()
+            if (which == "operator" and need_real and not _is_real(choi)) or (which == "state" and need_real and not _is_real(rho)):
+                continue
+            run.case({"representation": c["tag"], "call": f"QuantumChannel.apply:{which}", "rep": rname}, True)
+            rp = {"stream": "network_representation", "case": cj, "rep": rname, "which": which}
+            try:
+                with warnings.catch_warnings():
+                    warnings.simplefilter("ignore")
+                    got = np.asarray(QuantumChannel.from_operator(a, (d, d), inverse=True).apply(b))
+                same = got.shape == want.shape and np.array_equal(got, want)
+            except Exception as e:  # noqa: BLE001
+                out.append((f"representation:QuantumChannel.apply:{rname}:raises", f"QuantumChannel.from_operator(choi).apply(rho) raised {type(e).__name__}: "
+                            f"{str(e)[:160]} with the {which} handed over as {rname} (case {c['tag']})", rp, True))
+                continue
+            if not same:
+                out.append((f"representation:QuantumChannel.apply:{rname}", f"QuantumChannel.from_operator(choi, inverse=True).apply(rho) differs from sum K rho K^dagger "
+                            f"when the {which} is handed over as {rname} (same numbers; case {c['tag']})", rp, True))
+    return out
+
+
+def representation_stream(run, pl, ctxs):
+    rng = random.Random(f"c17rep:{run.seed}")
+    found = {}
+    ncalls = 0
+    allreps = list(REPS)
+    for ctx, (c, orders, pos, _norm, nets, _sp) in zip(ctxs, pl):
+        if ctx.n > 2:
+            continue
+        expected = {it.key: it.value for it in ctx.items}
+        pos2 = list(pos[:1]) + ([rng.choice(list(pos[1:]))] if len(pos) > 1 else [])
+        if run.tier == "quick" and ctx.n == 2:
+            reps = ["float64", "int64"] + rng.sample([r for r in allreps if r not in ("float64", "int64")], 3)
+            orders2 = tuple(orders)
+        else:
+            reps, orders2 = allreps, tuple(orders)
+        res = representation_case(run, c, expected, orders2, pos2, reps)
+        res += network_representation(run, c, reps)
+        for key, what, rp, conc in res:
+            found.setdefault(key, (what, rp, conc))
+    for key, (what, rp, conc) in found.items():
+        run.find(key, what, rp, concrete=conc)
+    run.oblige("input_representation_invariance:every_converter_on_retyped_inputs_equals_the_verified_complex128_value", not found, "correspondence")
 
 # ----------------------------------------------------------------------------- driver
 def coq_check(run, ctxs, jobs=8):
@@ -973,6 +1169,9 @@ def plan(tier, rng):
     pl.append((make_case(rng, 2, 3, "sub", "n2_rank3_subsets"), ORDERS, P[:1] + rng.sample(P[1:], 2), True, True, True))
     # a size where 2^n != 2n and 4^n != n^2: every dimension-dependent factor of the Pauli table, also in quick
     pl.append((make_case(rng, 3, 1, "perm", "n3_rank1_dimension_factors"), ("column", "system"), ["XZIY"], True, False, False))
+    # real integer data: every converter has real-valued inputs (the representation stream re-types them to int / float)
+    pl.append((real_variant(pl[1][0], "n1_rank3_real"), ORDERS, P[:1] + rng.sample(P[1:], 1), False, False, False))
+    pl.append((real_variant(pl[3][0], "n2_rank3_subsets_real"), ("row", "column"), rng.sample(P[1:], 1), False, False, False))
     if tier == "thorough":
         pl.append((make_case(rng, 2, 1, "full", "n2_rank1"), ORDERS, P, True, True, True))
         pl.append((make_case(rng, 2, 4, "sub", "n2_rank4_subsets"), ORDERS, rng.sample(P, 6), True, True, True))
@@ -1091,6 +1290,9 @@ def main(run):
     okh, pah = vcore.static_assumptions("C17/PropsHistory")
     for name in vcore.props_theorems("C17/PropsHistory.v"):
         run.oblige(name, okh and name in pah, "static theorem (query histories on one channel object)")
+    okr, par = vcore.static_assumptions("C17/PropsRepr")
+    for name in vcore.props_theorems("C17/PropsRepr.v"):
+        run.oblige(name, okr and name in par and "Closed under the global context" in par[name], "static theorem (real Pauli-Liouville vs complex Liouville form)")
     class Side:                      # collects the probe's results apart, merged after both parts are done
         def __init__(self):
             self.cases, self.found = [], []
@@ -1107,7 +1309,7 @@ def main(run):
     with ThreadPoolExecutor(max_workers=1) as side:      # the n=3/n=4 basis probe runs beside the conversion table
         fut = side.submit(run_basis_probe, side_run, random.Random(run.seed + 1))
         pl = plan(run.tier, rng)
-        check_plan(run, pl, beside=lambda ctxs: history_streams(run, pl, ctxs))
+        check_plan(run, pl, beside=lambda ctxs: (history_streams(run, pl, ctxs), representation_stream(run, pl, ctxs)))
         fut.result()
     for c, nt in side_run.cases:
         run.case(c, nt)
@@ -1150,6 +1352,17 @@ def replay(run, data):
             run.find(key, what, r2, concrete=conc)
         run.findings = [f for f in run.findings if f.key == data["key"]][:1] or run.findings[:1]
         return run.finish(rule="replay of one recorded sequence of conversions on shared arrays")
+    if rp.get("stream") in ("representation", "network_representation"):
+        c = case_from_json(rp["case"])
+        if rp["stream"] == "representation":
+            call = rp["call"]
+            res = representation_case(run, c, {}, (call[1],), [call[2]] if call[2] else ["IXYZ"], [rp["rep"]], only=(call, rp["rep"]))
+        else:
+            res = network_representation(run, c, [rp["rep"]])
+        for key, what, r2, conc in res:
+            run.find(key, what, r2, concrete=conc)
+        run.findings = [f for f in run.findings if f.key == data["key"]][:1] or run.findings[:1]
+        return run.finish(rule="replay of one converter call on re-typed inputs")
     if rp.get("stream") == "network_history":
         for key, what, r2, conc in network_history(run, case_from_json(rp["case"]), rp["ops"], rp["pure"]):
             run.find(key, what, r2, concrete=conc)
